@@ -34,14 +34,14 @@ CHECKS = {
    note="trusted: reference machine and reference screen decoder; device writes outside segments are out of scope by the statement; pygame is not installed, PcIO is assembled from its real headless components"),
  "C10": dict(engine="storagesim", category="fault_enumeration", design="5.4", timeout=(300, 2400),
    technique="deterministic simulation with fault injection on a simulated disk: the real writer's byte stream is torn at every byte (crash / full disk / kill), blocks are lost, every header/table field is corrupted from a value table, payload bits are flipped; the real reader opens every variant",
-   text="crash points are enumerated completely per file (every strict prefix up to 4 KiB), every single-field corruption from a value table, seeded block loss and payload damage; files (writer call sequences) are sampled",
-   note="trusted: the independent struct-level parser in checks/c10.py decides the named inconsistencies; a torn write leaves a prefix; undetectable (mutually consistent) damage is judged for totality only"),
+   text="crash points are enumerated completely per file (every strict prefix up to 4 KiB), every single-field corruption from a value table, seeded block loss and payload damage, stale tails after the file (1 byte..1.1 MB) and a time-scaling probe (n vs 2n filler bytes); files (writer call sequences and real assembler outputs) are sampled",
+   note="trusted: the independent struct-level parser in checks/c10.py decides the named inconsistencies; a torn write leaves a prefix; undetectable (mutually consistent) damage is judged for totality only; the prefix enumeration reads from the in-memory disk, every other variant from a real file"),
  "C13": dict(engine="historysim", category="exploration", design="5.5", timeout=(400, 2700),
    technique="deterministic simulation of call histories with fault injection: seeded histories of assemble calls in one process (fresh fork per history) with failing inputs, interrupts made pending at a chosen bytecode instruction, I/O errors at the k-th file operation and stl mtime jumps; every successful call is compared byte-for-byte with a fresh interpreter (other hash seed, other directory)",
-   text="seeded exploration of histories (2-10 operations; the last one collides with an earlier one: same program other width / other warning mode / same key after a failure or an interrupted call); the parser's process-global state, the stl-prefix cache and the recursion limit are never reset inside a history",
+   text="seeded exploration of histories (2-10 operations; the last one collides with an earlier one: same program other width / other warning mode / same key after a failure or an interrupted call); every 4th history runs in library mode (a private cacheable library whose macros take rep counts from the program's labels and constants, library files saved while a call is parsing or between calls); the parser's process-global state, the prefix cache and the recursion limit are never reset inside a history",
    note="trusted: the fresh-interpreter result is the function value (memoised per configuration and source-tree hash); corpus of 12 valid and 11 failing programs"),
  "C14": dict(engine="storagesim", category="fault_enumeration", design="5.6", timeout=(300, 2400),
-   technique="deterministic simulation with fault injection on a simulated disk: every file operation of a recorded assemble() call fails in turn (OSError, short write), the process dies after every byte of the .fjm, an interrupt becomes pending at seeded instructions of the create-binary stage",
+   technique="deterministic simulation with fault injection: the output files live in a real directory and are opened through numbered fault-injecting proxies; every file operation of a recorded assemble() call fails in turn (OSError of several errnos, short write + ENOSPC), the process dies after every byte of the .fjm, the progress-message stream fails (EPIPE) at every write, an interrupt becomes pending at seeded instructions of the create-binary stage",
    text="ONLY the crash-consistency clause of C14 is claimed (a failed assembly never leaves behind an output file that loads); fault plans are enumerated per sampled call. The clauses 'specific exception for every source text' and 'never hangs' quantify over inputs only and are not claimed",
    note="trusted: 'loads' = Reader + assert_runnable; every returned write is durable (most favourable disk); exception types under environment faults are not judged"),
  "C11": dict(engine="enginesim", category="exploration", design="5.3", timeout=(400, 2700),
@@ -54,7 +54,7 @@ CHECKS = {
    note="trusted: reference machine; documented variable layout; a pause on an op whose flip word is unreadable may end with that memory error (named relaxation); <=300 ops and <=40 prompts per session"),
  "C18": dict(engine="enginesim", category="fault_enumeration", design="5.7", timeout=(300, 2400),
    technique="deterministic simulation with fault injection: the scripted device fails at every IO call index of each sampled run (library IO error, EOF, foreign exception, KeyboardInterrupt, BaseException, bad __bool__), plus pending-SIGINT injection at chosen bytecode instructions / IO calls; oracle = reference machine stopped at the micro-step",
-   text="per sampled program the failing call index is enumerated completely (<=48 calls) with two fault kinds per index on native (flat/paged/ring), fast and featured; programs are sampled",
+   text="per sampled program (generated images, cat-like IO loops, real stl programs) the failing call index is enumerated completely (<=48 calls) with two fault kinds per index (library IO errors, EOF on either side, foreign exceptions incl. the OSError family, KeyboardInterrupt, BaseException, bad truth values) on native (flat/paged/ring/measured), fast and featured; plus the interrupt family (pending SIGINT at every instruction of ~2 ops of the python loops, at IO calls for all engines incl. the native signal poll) and window-close through the real PcIO/KeyboardIO/InteractiveScreen stack",
    note="trusted: reference machine; synchronous delivery of callback exceptions; async interrupts injected through CPython's own pending-signal mechanism (PyErr_SetInterrupt from a C monitoring callback), real OS signal timing is not explored"),
 }
 
